@@ -151,6 +151,9 @@ pub trait Cache: impl_details::CacheImplDetails {
     /// Number of key value pairs stored in store
     fn len(&self) -> usize;
 
+    /// Total size in bytes (`Record::len`) of the records currently stored
+    fn memory_usage(&self) -> u64;
+
     fn is_empty(&self) -> bool;
 
     /// Returns a read-only view over a stroe
